@@ -8,6 +8,7 @@ NA = {
  "C08": "quantifies over crash points inside pgx/Postgres transactions; atomicity and durability are the database's, there is no Go-level contract whose obligations range over 'the process died here'",
  "C13": "rests on the encoding/gob reflection round trip of the whole application and on file-system crash semantics of write/sync/rename; neither is reachable by contracts on /repo code",
  "C16": "a relation between executions under different batchings over Postgres rows and an external chain; contracts would only restate hand-transcribed SQL semantics, i.e. prove a model",
+ "C18": "quantifies over every spelling of a request path and over agreement between the middleware's regexp path matching and chi's routing: both are semantics of third-party libraries (regexp, kin-openapi, chi); a contract on /repo code can only state the three-line gate, which no path-spelling change would ever fail (DESIGN.md section 6)",
 }
 
 # property id -> (level text, level note, design ref, technique)
